@@ -296,5 +296,11 @@ def r4_description_protocol(chk: Check) -> None:
         chk.undecided("C03.R4", "<discovery>", f"consumers={n}", "fewer description consumers than confirmed by hand")
 
 
+def r5_documented_methods(chk: Check) -> None:
+    from . import shared
+
+    shared.documented_methods_rule(chk, "C03.R5", "labels")
+
+
 def rules(tier: str) -> list:  # type: ignore[type-arg]
-    return [r1_label_source, r2_yield_discipline, r3_bound_presence, r4_description_protocol]
+    return [r1_label_source, r2_yield_discipline, r3_bound_presence, r4_description_protocol, r5_documented_methods]
